@@ -95,13 +95,16 @@ def schemeOf (doc : Doc) (n : String) : Option SchemeKind := (doc.schemes.find? 
 
 /-- `NewSecurityRequirements`: each requirement keeps its first scheme in sorted-name order;
     an empty requirement is dropped; an unknown name is a generator error -/
-def reduceReqs (doc : Doc) (reqs : List (List String)) : Except String (List (String × SchemeKind)) :=
-  reqs.filterMapM (fun r =>
-    match r with
-    | [] => pure none
-    | n :: _ => match schemeOf doc n with
-      | some k => pure (some (n, k))
-      | none => throw s!"cannot find {n} security scheme")
+def reduceReqs (doc : Doc) : List (List String) → Except String (List (String × SchemeKind))
+  | [] => .ok []
+  | [] :: rest => reduceReqs doc rest
+  | (n :: _) :: rest =>
+    match schemeOf doc n with
+    | none => .error s!"cannot find {n} security scheme"
+    | some k =>
+      match reduceReqs doc rest with
+      | .error e => .error e
+      | .ok red => .ok ((n, k) :: red)
 
 def effectiveReqs (doc : Doc) (o : Operation) : List (List String) := o.security.getD doc.security
 
@@ -126,38 +129,63 @@ def pathProgOf (raw : String) (params : List Param) : List Seg :=
 
 def appendIfAbsent (xs : List String) (x : String) : List String := if xs.contains x then xs else xs ++ [x]
 
-def corsHeadersOf (doc : Doc) (pi : PathItem) : Except String (List String) := do
-  let mut hs : List String := []
-  for o in pi.ops do
-    for p in o.parameters do
-      if p.loc == "header" then hs := appendIfAbsent hs (canonKey p.name)
-    let red ← reduceReqs doc (effectiveReqs doc o)
-    for (_, k) in red do
-      match k with
-      | .bearer => hs := appendIfAbsent hs "Authorization"
-      | .apiKeyHeader n => hs := appendIfAbsent hs (canonKey n)
-      | _ => pure ()
-  pure hs
+/-- the append-if-absent loop over a `headersMap` -/
+def dedupKeep (l : List String) : List String := l.foldl appendIfAbsent []
 
-def planItem (doc : Doc) (cors : Bool) (pi : PathItem) : Except String ItemM := do
-  let hasOptions := pi.ops.any (·.method == "OPTIONS")
-  let ops ← pi.ops.mapM (fun o => do
-    let red ← reduceReqs doc (effectiveReqs doc o)
+/-- `mapM` in `Except`, written out -/
+def mapE {α β ε : Type} (f : α → Except ε β) : List α → Except ε (List β)
+  | [] => .ok []
+  | x :: xs =>
+    match f x with
+    | .error e => .error e
+    | .ok y =>
+      match mapE f xs with
+      | .error e => .error e
+      | .ok ys => .ok (y :: ys)
+
+def secHeaderOf : SchemeKind → Option String
+  | .bearer => some "Authorization"
+  | .apiKeyHeader n => some (canonKey n)
+  | _ => none
+
+/-- header names one operation contributes to the preflight: its header parameters, then
+    the headers its (reduced) security schemes read -/
+def opCorsKeys (o : Operation) (red : List (String × SchemeKind)) : List String :=
+  (o.parameters.filter (·.loc == "header")).map (fun p => canonKey p.name) ++ red.filterMap (fun x => secHeaderOf x.2)
+
+def corsHeadersOf (doc : Doc) (pi : PathItem) : Except String (List String) :=
+  match mapE (fun o => match reduceReqs doc (effectiveReqs doc o) with
+                       | .error e => .error e
+                       | .ok red => .ok (opCorsKeys o red)) pi.ops with
+  | .error e => .error e
+  | .ok keys => .ok (dedupKeep keys.flatten)
+
+def planOp (doc : Doc) (pi : PathItem) (o : Operation) : Except String OpM :=
+  match reduceReqs doc (effectiveReqs doc o) with
+  | .error e => .error e
+  | .ok red =>
     let pathPs := o.parameters.filter (·.loc == "path")
-    pure ({ method := o.method, tpl := pi.raw, auth := authRefs red,
-            hasPathParams := !pathPs.isEmpty,
-            pathProg := pathProgOf pi.raw o.parameters,
-            pathFields := pathPs.map (·.name) } : OpM))
-  if cors && !hasOptions && !ops.isEmpty then
-    let hs ← corsHeadersOf doc pi
-    let c : OpM := { method := "OPTIONS", tpl := pi.raw, isCors := true,
-                     corsMethods := pi.ops.map (·.method), corsHeaders := hs }
-    pure { raw := pi.raw, ops := ops ++ [c] }
-  else pure { raw := pi.raw, ops := ops }
+    .ok { method := o.method, tpl := pi.raw, auth := authRefs red,
+          hasPathParams := !pathPs.isEmpty,
+          pathProg := pathProgOf pi.raw o.parameters,
+          pathFields := pathPs.map (·.name) }
 
-def plan (doc : Doc) (flagBase specName : String) (cors : Bool) : Except String ApiM := do
-  let items ← doc.paths.mapM (planItem doc cors)
-  pure { base := basePath doc flagBase, specName := specName, cors := cors, items := items }
+def planItem (doc : Doc) (cors : Bool) (pi : PathItem) : Except String ItemM :=
+  match mapE (planOp doc pi) pi.ops with
+  | .error e => .error e
+  | .ok ops =>
+    if cors && !(pi.ops.any (·.method == "OPTIONS")) && !ops.isEmpty then
+      match corsHeadersOf doc pi with
+      | .error e => .error e
+      | .ok hs =>
+        .ok { raw := pi.raw, ops := ops ++ [{ method := "OPTIONS", tpl := pi.raw, isCors := true,
+                                              corsMethods := pi.ops.map (·.method), corsHeaders := hs }] }
+    else .ok { raw := pi.raw, ops := ops }
+
+def plan (doc : Doc) (flagBase specName : String) (cors : Bool) : Except String ApiM :=
+  match mapE (planItem doc cors) doc.paths with
+  | .error e => .error e
+  | .ok items => .ok { base := basePath doc flagBase, specName := specName, cors := cors, items := items }
 
 /-! ## Sem -/
 
